@@ -133,10 +133,14 @@ type BCase struct {
 	Tier  string         `json:"tier"` // "B"
 	Shape DfCase         `json:"shape"`
 	Slow  map[string]int `json:"slow,omitempty"`
+	// Py: the stages are python modules on the repository's python adapter
+	Py bool `json:"python_stages,omitempty"`
 }
 
 func evalB(prop string, c BCase, p *progen.Program, ref *progen.RefResult) (viol []string, res *Result, br *BResult) {
-	br = RunB(p, BOptions{Slow: c.Slow})
+	p.Py = c.Py
+	defer func() { p.Py = false }()
+	br = RunB(p, BOptions{Slow: c.Slow, Timeout: 120 * time.Second})
 	if br.Err != "" {
 		return nil, nil, br
 	}
@@ -206,7 +210,11 @@ func TierBDataflow(r *ev.Run, prop string) {
 			}
 			bc.Shape.Program = p.MRO()
 			for _, v := range viol {
-				r.Report(ev.Finding{Sig: sigForCase(prop, c, v), What: "real mrp/mrjob, " + c.Name() + slowNote(bc.Slow) + ": " + v, Case: bc})
+				py := ""
+				if bc.Py {
+					py = " (python stages)"
+				}
+				r.Report(ev.Finding{Sig: sigForCase(prop, c, v), What: "real mrp/mrjob" + py + ", " + c.Name() + slowNote(bc.Slow) + ": " + v, Case: bc})
 			}
 			return true
 		}
@@ -230,6 +238,25 @@ func TierBDataflow(r *ev.Run, prop string) {
 		br.Cleanup()
 		if wi%53 == 0 {
 			r.Sample(map[string]interface{}{"tier": "real binaries", "program": c.Name(), "jobs": len(res.Jobs), "top_outs": res.TopOutsText})
+		}
+		// the same program with its stages written in python (the python
+		// adapter hands the stage code its arguments): programs one step from
+		// the base (thorough: two)
+		if c.Family == "dataflow" && len(ref.Jobs) > 0 && pyProgram(c, r.Thorough()) && !time.Now().After(deadline) {
+			pc := BCase{Tier: "B", Shape: c, Py: true}
+			pv, pres, pbr := evalB(prop, pc, p, ref)
+			if pbr.Err == "" {
+				r.Add("tierb_runs", 1)
+				r.Add("tierb_python_programs", 1)
+				r.Eval("B|py|" + c.Name())
+				if len(pv) > 0 {
+					r.Outcome("tierb-violation")
+					report(pc, pv, pres, pbr)
+				} else {
+					r.Outcome("tierb-python-ok")
+				}
+			}
+			pbr.Cleanup()
 		}
 		// deviations: one job at a time is slow (its stage code starts late),
 		// so that everything that does not wait for it overtakes it
@@ -264,6 +291,23 @@ func TierBDataflow(r *ev.Run, prop string) {
 	}
 }
 
+var pyNames map[string]bool
+
+// pyProgram: is the program in the python sub-family?
+func pyProgram(c DfCase, thorough bool) bool {
+	if pyNames == nil {
+		pyNames = map[string]bool{}
+		n := 1
+		if thorough {
+			n = 2
+		}
+		for _, d := range progen.DataflowFamily(n) {
+			pyNames[d.String()] = true
+		}
+	}
+	return pyNames[c.Params.String()]
+}
+
 func slowNote(m map[string]int) string {
 	if len(m) == 0 {
 		return ""
@@ -294,12 +338,18 @@ type BFaultCase struct {
 	Shape   DfCase `json:"shape"`
 	Fault   Fault  `json:"fault"`
 	Retries int    `json:"retries,omitempty"`
+	Py      bool   `json:"python_stages,omitempty"`
 }
+
+// manifestations of a stage written in python (pyStageModule acts them out)
+var pyFaultKinds = []string{"py-exception", "errors-early", "assert-early", "sys-exit", "exit1", "kill9", "kill-monitor"}
 
 // process-level manifestations (cmd/vstage implements them)
 var bFaultKinds = []string{"exit1", "kill9", "segv", "errors-early", "assert-early", "panic", "exit1-late", "kill9-late", "kill-monitor", "errors-nojournal"}
 
 func evalBFault(c BFaultCase, p *progen.Program, ref *progen.RefResult) (viol []string, class string) {
+	p.Py = c.Py
+	defer func() { p.Py = false }()
 	f := c.Fault
 	limit := 90 * time.Second
 	if f.Kind == "errors-nojournal" {
@@ -464,6 +514,12 @@ func TierBFaults(r *ev.Run) {
 			for _, kind := range bFaultKinds {
 				items = append(items, item{BFaultCase{Tier: "B", Shape: sh, Fault: Fault{Job: k, Kind: kind}}, p, ref})
 			}
+			// the same stage written in python: first shape only (thorough: all)
+			if si == 0 || r.Thorough() {
+				for _, kind := range pyFaultKinds {
+					items = append(items, item{BFaultCase{Tier: "B", Shape: sh, Fault: Fault{Job: k, Kind: kind}, Py: true}, p, ref})
+				}
+			}
 			// automatic retry costs seconds per restart (mrp's 3 s step):
 			// one job per shape in the quick tier, every job in the thorough
 			if r.Thorough() || ki == (si+1)%len(keys) {
@@ -489,7 +545,7 @@ func TierBFaults(r *ev.Run) {
 			break
 		}
 		viol, class := evalBFault(it.c, it.p, it.ref)
-		key := fmt.Sprintf("B|%s|%s|%s|r%d.%d", it.c.Shape.Name(), it.c.Fault.Job, it.c.Fault.Kind, it.c.Retries, it.c.Fault.Times)
+		key := fmt.Sprintf("B|%s|%s|%s|r%d.%d|py=%v", it.c.Shape.Name(), it.c.Fault.Job, it.c.Fault.Kind, it.c.Retries, it.c.Fault.Times, it.c.Py)
 		if class == "fault-site-not-reached" || class == "not-started" {
 			r.Eval("")
 			r.Outcome("tierb-" + class)
@@ -516,7 +572,7 @@ func TierBFaults(r *ev.Run) {
 		for _, v := range viol {
 			v = normText(v)
 			r.Report(ev.Finding{Sig: faultSig(v, FaultCase{Fault: c.Fault}, phase) + ":real",
-				What: fmt.Sprintf("real mrp/mrjob, %s, job %s fault %s autoretry=%d: %s", c.Shape.Name(), c.Fault.Job, c.Fault.Kind, c.Retries, v), Case: c})
+				What: fmt.Sprintf("real mrp/mrjob (python stages: %v), %s, job %s fault %s autoretry=%d: %s", c.Py, c.Shape.Name(), c.Fault.Job, c.Fault.Kind, c.Retries, v), Case: c})
 		}
 	}
 }
